@@ -167,6 +167,18 @@ CLAIMED = {
         "refusals are validated by TLC (PatchPerValidCell, ValuePairs, ClimSpansValues, OverridesRespected, Refused, QuiverPairs).",
    note="Artists' contents only (no rendering). Quiver components are read through matplotlib's joint mask.",
    ref="5 C19"),
+ "C20": dict(
+   text="TLC checks that a left-to-right scanner (what a full match of the bounds regular expression does) agrees with the "
+        "declarative bounds grammar on 9 201 strings (sentences of decimal forms x separators, and every single-character insert / "
+        "delete / replace of base sentences) and that only exactly four numbers are bounds; every generated argument string goes "
+        "through bounds_argument / geometry_argument and TLC decides acceptance and the exact box (values in thousandths); GeoJSON "
+        "strings and files come back as exactly that geometry and malformed / unknown-suffix / missing inputs are refused; "
+        "emsarray.cli.main runs in subprocesses on datasets of every detectable convention (clip with bounds / GeoJSON, extract-"
+        "points x three policies incl. misses, export-geometry x four formats explicit and guessed, failing requests) and TLC checks "
+        "output file = projection of the corresponding library call, non-zero exit with a message when the library call fails or "
+        "the request is bad, and no output file on failure.",
+   note="Library calls themselves are judged by C05/C08/C15; CLI run with the synchronous dask scheduler; ArakawaC is not reachable from the CLI.",
+   ref="5 C20"),
 }
 PENDING_REASON = "check not built yet in this round (specification and binding under construction; see DESIGN.md section 13)"
 props = [json.loads(l) for l in (V / "properties.jsonl").read_text().splitlines() if l.strip()]
